@@ -11,4 +11,3 @@ func TestMain(m *testing.M) {
 	flushEvidence()
 	os.Exit(code)
 }
-
